@@ -392,4 +392,111 @@ def prlxClosed (F : Fourier R) (g : PrlxGeom R) (W : R) (pix : List (Nat × Nat)
 
 end Carrier
 
+/-! ## `HyperparameterState`: stored / per-call hyper-parameters and call histories
+
+`reconstruct` resolves its aberration set and rotation angle through
+`state.current_aberrations(override)` / `state.current_rotation_angle(override)`; per-call overrides
+must not persist, `grid_search_hyperparameters` (fixed values) rewrites the optimized part only.
+Dicts are insertion-ordered association lists (Python `dict`); `α` is the coefficient type, `ρ` the angle type. -/
+
+abbrev Dict (α : Type) := List (String × α)
+
+/-- `d[k] = v` : replace in place if present, else append -/
+def Dict.set {α : Type} : Dict α → String → α → Dict α
+  | [], k, v => [(k, v)]
+  | (k', v') :: t, k, v => if k' = k then (k', v) :: t else (k', v') :: Dict.set t k v
+
+def Dict.get? {α : Type} : Dict α → String → Option α
+  | [], _ => none
+  | (k', v') :: t, k => if k' = k then some v' else Dict.get? t k
+
+/-- `d.update(e)` -/
+def Dict.update {α : Type} (d e : Dict α) : Dict α := e.foldl (fun acc kv => acc.set kv.1 kv.2) d
+
+def polarSymbols : List String :=
+  ["C10", "C12", "phi12", "C21", "phi21", "C23", "phi23", "C30", "C32", "phi32", "C34", "phi34",
+   "C41", "phi41", "C43", "phi43", "C45", "phi45", "C50", "C52", "phi52", "C54", "phi54", "C56", "phi56"]
+
+/-- canonical polar symbol of a user key and whether the value is negated (`defocus = -C10`) -/
+def canonKey (k : String) : Option (String × Bool) :=
+  if k ∈ polarSymbols then some (k, false) else
+  match k with
+  | "defocus" => some ("C10", true)
+  | "astigmatism" => some ("C12", false)
+  | "astigmatism_angle" => some ("phi12", false)
+  | "coma" => some ("C21", false)
+  | "coma_angle" => some ("phi21", false)
+  | "Cs" => some ("C30", false)
+  | "C5" => some ("C50", false)
+  | _ => none
+
+/-- `validate_aberration_coefficients`: unknown keys raise, aliases are resolved in order (later entries win) -/
+def canonicalize {α : Type} (neg : α → α) (d : Dict α) : Except Err (Dict α) :=
+  if d.all (fun kv => (canonKey kv.1).isSome) then
+    .ok (d.foldl (fun acc kv => match canonKey kv.1 with
+      | some (c, n) => acc.set c (if n then neg kv.2 else kv.2)
+      | none => acc) [])
+  else .error .valueError
+
+structure HState (α ρ : Type) where
+  initialAb : Dict α
+  optimizedAb : Dict α
+  initialRot : Option ρ
+  optimizedRot : Option ρ
+
+/-- `current_aberrations(override)`: initial, then optimized, then the (validated) per-call override -/
+def currentAberrations {α ρ : Type} (neg : α → α) (st : HState α ρ) (override : Option (Dict α)) :
+    Except Err (Dict α) :=
+  let out := st.initialAb.update st.optimizedAb
+  match override with
+  | none => .ok out
+  | some o => match canonicalize neg o with
+    | .ok c => .ok (out.update c)
+    | .error e => .error e
+
+/-- `current_rotation_angle(override)`: a value that is given (`is not None`) wins, whatever it is -/
+def currentRotation {α ρ : Type} (zero : ρ) (st : HState α ρ) (override : Option ρ) : ρ :=
+  match override with
+  | some r => r
+  | none => match st.optimizedRot with
+    | some r => r
+    | none => match st.initialRot with
+      | some r => r
+      | none => zero
+
+inductive Step (α ρ : Type) where
+  /-- `reconstruct(override_aberration_coefs=ab, override_rotation_angle=rot, …)` -/
+  | call (ab : Option (Dict α)) (rot : Option ρ)
+  /-- `grid_search_hyperparameters(aberration_coefs=ab (fixed values), rotation_angle=rot (fixed), …)` -/
+  | grid (ab : Dict α) (rot : Option ρ)
+
+/-- `clear_optimized()` -/
+def HState.cleared {α ρ : Type} (st : HState α ρ) : HState α ρ :=
+  { st with optimizedAb := [], optimizedRot := none }
+
+/-- the stored state after a step -/
+def stepState {α ρ : Type} (neg : α → α) (st : HState α ρ) : Step α ρ → HState α ρ
+  | .call _ _ => st
+  | .grid ab rot =>
+    let c := st.cleared
+    match currentAberrations neg c (some ab) with
+    | .ok a => { c with optimizedAb := a, optimizedRot := rot }
+    | .error _ => c       -- the trial reconstruct raises after `clear_optimized()`
+
+/-- the hyper-parameters the reconstruction of a step is computed with (for a grid step: of its final
+`reconstruct()`, i.e. of a plain call in the new state) -/
+def effective {α ρ : Type} (neg : α → α) (zero : ρ) (st : HState α ρ) (s : Step α ρ) :
+    Except Err (Dict α × ρ) :=
+  match s with
+  | .call ab rot => (currentAberrations neg st ab).map fun a => (a, currentRotation zero st rot)
+  | .grid ab _ =>
+    match currentAberrations neg st.cleared (some ab) with
+    | .error e => .error e
+    | .ok _ => let st' := stepState neg st s
+               (currentAberrations neg st' none).map fun a => (a, currentRotation zero st' none)
+
+/-- the object after a history -/
+def runHistory {α ρ : Type} (neg : α → α) (st : HState α ρ) (h : List (Step α ρ)) : HState α ρ :=
+  h.foldl (stepState neg) st
+
 end QuantemModel.DirectPtycho
